@@ -348,6 +348,9 @@ class ThroughTheRealWriters(object):
         for c in sorted(self.COPIES):
             for ie in (False, True):
                 yield {'w': block['w'], 'copy': c, 'ie': ie}
+        # a directory sits where the copy is to be stored: the writer fails on that very module
+        for ie in (False, True):
+            yield {'w': block['w'], 'copy': 'ordinary', 'ie': ie, 'blocked': 1}
 
     def run_case(self, case):
         from pysmi.borrower.pyfile import PyFileBorrower
@@ -367,6 +370,10 @@ class ThroughTheRealWriters(object):
             copy = self.COPIES[case['copy']]
             with open(os.path.join(bdir, 'FOO-MIB' + ext), 'wb') as f:
                 f.write(copy.encode('utf-8'))
+            if case.get('blocked'):
+                os.mkdir(os.path.join(dst, 'FOO-MIB' + ext))
+                with open(os.path.join(dst, 'FOO-MIB' + ext, 'in-the-way'), 'w') as f:
+                    f.write('x')
             reader = FileReader(bdir)
             b = AnyFileBorrower(reader).setOptions(exts=['.json']) if js else PyFileBorrower(reader)
             if js:
@@ -387,6 +394,12 @@ class ThroughTheRealWriters(object):
             except Exception as exc:
                 return 'escaped', [('%s|exception-escapes|%s' % (sig, type(exc).__name__), repr(exc)[:300])], 1
             st = res.get('FOO-MIB')
+            if case.get('blocked'):
+                vs = []
+                if str(st) != 'failed' or not isinstance(getattr(st, 'error', None), error.PySmiWriterError):
+                    vs.append(('%s|store-failed-but-status-%s' % (sig.replace('|ordinary', '|directory-in-the-way'), st),
+                               'error %r' % (getattr(st, 'error', None),)))
+                return 'blocked:%s' % st, vs, 1
             stored = None
             if os.path.exists(os.path.join(dst, 'FOO-MIB' + ext)):
                 with open(os.path.join(dst, 'FOO-MIB' + ext), 'rb') as f:
